@@ -325,10 +325,35 @@ def analyze(case, real, spec):
     committed_versions = None   # versions of the last committed build (None: no cache)
     rec = None              # the model's record of the last committed build (what the cache file stands for)
     all_contents = set(n[2] for n in real['init'] if n[1] == 'file')
+    lenient = False         # the cache file was given a well-formed JSON document with a field of the wrong type
     for i, st in enumerate(case['steps']):
         ro, so = real['steps'][i], spec['steps'][i]
         kind = st[0]
         all_contents.update(n[2] for n in ro['tree'] if n[1] == 'file')
+        if (kind == 'mut' and st[1] == 'corrupt' and str(st[3]).startswith(('field:', 'opfield:'))
+                and any(n[0] == cache and n[1] == 'file' for n in before)):
+            lenient = True
+        if lenient and kind in ('build', 'clean'):
+            # Parsing is documented as best effort: the library may accept such a file (then the history leaves
+            # what the models describe and is not followed further) - but IF the call raises, it must have
+            # changed nothing and called nothing (C15); which exception class it raises is not specified.
+            if 'exc' not in ro['res']:
+                stats['accepted_wrong_shape'] = stats.get('accepted_wrong_shape', 0) + 1
+                break
+            stats['refused'] += 1
+            problems = {}
+            if ro['tree'] != before:
+                problems['tree'] = [x for x in ro['tree'] if x not in before][:3] + [x for x in before if x not in ro['tree']][:3]
+            if ro.get('inv'):
+                problems['called'] = ro['inv'][:3]
+            if ro.get('root_called'):
+                problems['called'] = ['<root function>']
+            if problems:
+                problems['exception'] = ro['res']['exc'].get('cls')
+                ds.append({'cat': 'refused_effect', 'step': i, 'detail': problems})
+            if ro.get('tmp_leak'):
+                ds.append({'cat': 'tmp_leak', 'step': i, 'detail': ro['tmp_leak']})
+            break
         if not so.get('obl'):
             impl_compare(case, i, st, ro, so, ds, all_contents)
         if kind == 'mut':
